@@ -377,6 +377,9 @@ func judgeRun(backend string, g *Graph, lk *Link, want string, effects []drive.E
 	if checkInit {
 		for _, mn := range lk.ReachSeq {
 			n := loads[singletonOf(mn)]
+			if g.mod(mn).Bare {
+				continue
+			}
 			switch {
 			case n == 0:
 				v.fail(backend+":init-missing", fmt.Sprintf("%s: module %s was never initialised (its singleton was not loaded)", backend, mn), detail)
